@@ -27,6 +27,15 @@ if [ "$ID" = "C12" ]; then
   fi
   export VERIF_NOSEC_BIN=/verif/harness/target/nosec/release/specs-verif
 fi
+if [ "$MODE" = "thorough" ]; then
+  case "$ID" in
+    C01|C02|C03|C04|C05|C08|C09|C17)
+      # secondary engine: libFuzzer targets (instrumented + AddressSanitizer). If they cannot be built the
+      # check still runs its proptest parts and says so in the evidence.
+      (cd /verif/harness && cargo +nightly fuzz build >/verif/harness/target/build-fuzz.log 2>&1) || echo "note: fuzz targets not built (see /verif/harness/target/build-fuzz.log); libFuzzer part skipped"
+      ;;
+  esac
+fi
 case "$MODE" in
   quick|thorough) exec "$BIN" run "$ID" "$MODE" ;;
   --replay) exec "$BIN" replay "$ID" "${3:?replay file}" ;;
